@@ -22,7 +22,7 @@ const char *MC_MAX_NAMES[] = {NULL};
 
 static OGraph G;
 static int G_init;
-#define MAXBALL 8192
+#define MAXBALL 32768
 static uint64_t ballc[MAXBALL];
 static int balld[MAXBALL];
 
@@ -100,6 +100,7 @@ static int cmp_set(const char *fn, uint64_t h, int k, const uint64_t *out, const
     mc_ctr(6, n);
     return !mc_w->cur_failed && cnt == n;
 }
+static int g_skipsafe;  // large k: the recursive safe algorithm is not called directly (gridDisk still falls back to it when needed)
 static void op_disk(const McArg *a) {
     uint64_t h = a[0].u;
     int k = (int)a[1].i;
@@ -145,14 +146,16 @@ static void op_disk(const McArg *a) {
         goto done;
     }
     if (!cmp_set("gridDiskDistances", h, k, out, dist, slots, n)) goto done;
-    RESET();
-    e = gridDiskDistancesSafe(h, k, out, dist);
-    GUARD("gridDiskDistancesSafe");
-    if (e) {
-        mc_fail("gridDiskDistancesSafe(%" PRIx64 ",%d) returned %d", h, k, e);
-        goto done;
+    if (!g_skipsafe) {
+        RESET();
+        e = gridDiskDistancesSafe(h, k, out, dist);
+        GUARD("gridDiskDistancesSafe");
+        if (e) {
+            mc_fail("gridDiskDistancesSafe(%" PRIx64 ",%d) returned %d", h, k, e);
+            goto done;
+        }
+        if (!cmp_set("gridDiskDistancesSafe", h, k, out, dist, slots, n)) goto done;
     }
-    if (!cmp_set("gridDiskDistancesSafe", h, k, out, dist, slots, n)) goto done;
     // unsafe variants
     for (int v = 0; v < 2; v++) {
         const char *fn = v ? "gridDiskDistancesUnsafe" : "gridDiskUnsafe";
@@ -344,9 +347,49 @@ static void op_maxsize(const McArg *a) {
         MC_CHECK(maxGridDiskSize(k, &out) == 0 && out == 3 * (int64_t)k * (k + 1) + 1, "maxGridDiskSize(%d) = %" PRId64, k, out);
     }
 }
-enum { OP_DISK, OP_NBR, OP_DISKS, OP_MAXSIZE, OP_RING };
-const McOp MC_OPS[] = {{"disk", "hi", op_disk}, {"nbr", "h", op_nbr}, {"disks", "hi", op_disks}, {"maxsize", "", op_maxsize}, {"ring", "hi", op_ring}};
-const int MC_NOPS = 5;
+// diskbig(h,k): op_disk for large k without the direct call of the recursive safe algorithm
+static void op_diskbig(const McArg *a) {
+    g_skipsafe = 1;
+    op_disk(a);
+    g_skipsafe = 0;
+    if (G.n > 1200000) og_clear(&G);
+}
+// nbrx(a): areNeighborCells(a, b) for every single-field deviation b of a -- the same digits under every other base cell, and every other
+// value of every digit -- must be true exactly when b is a geometric neighbour of a (almost all of these pairs are far apart)
+static void op_nbrx(const McArg *a) {
+    uint64_t h = a[0].u, nb[8];
+    int r = spec_res(h);
+    if (!G_init) og_init(&G, 1 << 16), G_init = 1;
+    int m = og_nbrs(&G, h, nb);
+    if (m < 0) {
+        mc_ctr(0, 1);
+        return;
+    }
+    for (int pass = 0; pass < 2; pass++)
+        for (int f = 0; f < (pass ? 15 : 122); f++)
+            for (int v = 0; v < (pass ? 7 : 1); v++) {
+                uint64_t b;
+                if (!pass)
+                    b = (h & ~((uint64_t)127 << 45)) | ((uint64_t)f << 45);
+                else {
+                    if (f >= r) continue;
+                    b = spec_set_digit(h, f + 1, v);
+                }
+                if (b == h || !spec_valid(b)) continue;
+                int want = 0, out = -5;
+                for (int q = 0; q < m; q++) want |= nb[q] == b;
+                mc_trans(2);
+                H3Error e = areNeighborCells(h, b, &out);
+                MC_CHECK(e == 0 && out == want, "areNeighborCells(%" PRIx64 ",%" PRIx64 ") = %d,%d but the cells are %sgeometric neighbours", h, b, e, out, want ? "" : "not ");
+                e = areNeighborCells(b, h, &out);
+                MC_CHECK(e == 0 && out == want, "areNeighborCells(%" PRIx64 ",%" PRIx64 ") = %d,%d but the cells are %sgeometric neighbours", b, h, e, out, want ? "" : "not ");
+                mc_ctr(want ? 4 : 5, 1);
+            }
+    if (r >= 10) mc_nontrivial();
+}
+enum { OP_DISK, OP_NBR, OP_DISKS, OP_MAXSIZE, OP_RING, OP_DISKBIG, OP_NBRX };
+const McOp MC_OPS[] = {{"disk", "hi", op_disk}, {"nbr", "h", op_nbr}, {"disks", "hi", op_disks}, {"maxsize", "", op_maxsize}, {"ring", "hi", op_ring}, {"diskbig", "hi", op_diskbig}, {"nbrx", "h", op_nbrx}};
+const int MC_NOPS = 7;
 
 static U64Vec g_dom;
 static int g_K;
@@ -376,13 +419,30 @@ static void ph_big(void *u) {
         }
     if (mc_wid == 0) MC_RUN(OP_MAXSIZE, H(0));
 }
+static int g_step;
+static const int *g_ks;
+static void ph_bigk(void *u) {
+    size_t nsel = (g_dom.n + g_step - 1) / g_step, lo = nsel * mc_wid / mc_nw, hi = nsel * (mc_wid + 1) / mc_nw;
+    for (size_t q = lo; q < hi; q++) {
+        if (mc_expired()) return;
+        for (int j = 0; g_ks[j]; j++) MC_RUN(OP_DISKBIG, H(g_dom.v[q * g_step]), I(g_ks[j]));
+    }
+}
+static void ph_nbrx(void *u) {
+    size_t lo = g_dom.n * mc_wid / mc_nw, hi = g_dom.n * (mc_wid + 1) / mc_nw;
+    for (size_t i = lo; i < hi; i++) {
+        if ((i & 63) == 0 && mc_expired()) return;
+        MC_RUN(OP_NBRX, H(g_dom.v[i]));
+    }
+}
 int main(int argc, char **argv) {
     mc_init(argc, argv);
     int fullmax = mc_thorough ? 5 : 3;
     static const int Kq[] = {8, 8, 5, 3, 0, 0}, Kt[] = {8, 8, 7, 5, 3, 3};
     snprintf(mc_bounds, sizeof mc_bounds,
              "every origin of FULL(r) x k<=K_r, K = %s; origins within 2 steps of a pentagon at r<=2 with k up to %d; FINE level %d origins "
-             "at r=%d..15 with k<=%d; areNeighborCells for every b within 3 steps; gridDisksUnsafe k<=2",
+             "at r=%d..15 with k<=%d; areNeighborCells for every b within 3 steps and for every single-field deviation b (same digits under each other base cell, each other value of "
+             "each digit); gridDisksUnsafe k<=2; large k (res 3: 12..33, res 4: 26..80) from thinned origins",
              mc_thorough ? "8,8,7,5,3,3 (r=0..5)" : "8,8,5,3 (r=0..3)", mc_thorough ? 30 : 16, mc_thorough ? 1 : 2, fullmax + 1, mc_thorough ? 3 : 2);
     for (int r = 0; r <= fullmax; r++) {
         g_dom.n = 0;
@@ -414,5 +474,22 @@ int main(int argc, char **argv) {
         snprintf(nm, sizeof nm, "FINE(%d) k<=%d", r, g_K);
         mc_phase(nm, ph_cells, NULL);
     }
+    // large k away from the pentagons: every g_step-th origin of FULL(3) / FULL(4)
+    {
+        static const int k3q[] = {12, 26, 0}, k3t[] = {12, 19, 24, 26, 33, 0}, k4q[] = {26, 0}, k4t[] = {40, 66, 80, 0};
+        g_dom.n = 0;
+        dom_full(3, &g_dom);
+        g_step = mc_thorough ? 5 : 23;
+        g_ks = mc_thorough ? k3t : k3q;
+        mc_phase("FULL(3) thinned, large k (unsafe walks, gridDisk, gridDiskDistances)", ph_bigk, NULL);
+        g_dom.n = 0;
+        dom_full(4, &g_dom);
+        g_step = mc_thorough ? 97 : 601;
+        g_ks = mc_thorough ? k4t : k4q;
+        mc_phase("FULL(4) thinned, large k", ph_bigk, NULL);
+    }
+    g_dom.n = 0;
+    for (int r = 1; r <= 15; r++) dom_fine_raw(r, 2, &g_dom);
+    mc_phase("areNeighborCells on single-field deviations (all resolutions)", ph_nbrx, NULL);
     return mc_finish();
 }
